@@ -447,6 +447,35 @@ def _step_on_every_iteration(ctx, f, s, steps):
         for n in g.nodes_for(x):
             cut.add(n.id)
     # nodes inside the loop reachable from head without passing a step; do we get back to head?
+    # a way round the step is harmless when it ends the loop: the test just taken refutes a conjunct of the loop condition
+    # and nothing but joins lies between it and the loop head (while (!found && i != n) { ...; if (!found) ++i; })
+    F = ctx.facts(f)
+    lp = loop_parts(s)
+    neg = set()
+    if lp.get('cond') is not None:
+        for c in _conjuncts(lp['cond']):
+            truth = False
+            pc = peel(c)
+            while pc is not None and pc.get('kind') == 'UnaryOperator' and pc.get('opcode') == '!':
+                truth = not truth
+                pc = peel(kids(pc)[0])
+            for fa in F.cond_facts(pc if pc is not None else c, truth):
+                neg.add(fa)
+
+    def only_joins_to_head(m):
+        seen_ = set()
+        st_ = [m]
+        while st_:
+            x_ = st_.pop()
+            if x_ is head:
+                continue
+            if x_.id in seen_:
+                continue
+            seen_.add(x_.id)
+            if x_.kind not in ('join',):
+                return False
+            st_.extend(y_ for (y_, _) in x_.succs)
+        return True
     seen = set()
     stack = [m for (m, _) in head.succs]
     while stack:
@@ -458,7 +487,11 @@ def _step_on_every_iteration(ctx, f, s, steps):
             return False
         if n.ast is not None and not any(a is s for a in ancestors(n.ast)) and n.ast is not s and n.kind in ('stmt', 'cond'):
             continue        # left the loop
-        stack.extend(m for (m, _) in n.succs)
+        for (m, lab) in n.succs:
+            if n.kind == 'cond' and lab in ('T', 'F') and neg and n.ast is not None and \
+                    any(fa in neg for fa in F.cond_facts(n.ast, lab == 'T')) and only_joins_to_head(m):
+                continue        # the loop condition is false on arrival: this iteration was the last
+            stack.append(m)
     return True
 
 
